@@ -50,6 +50,7 @@ type Contract struct {
 	Inline     bool
 	Pure       bool
 	NoOverflow bool
+	HeapNonNil bool // sweep contracts: pointers and interfaces loaded from memory are assumed non-nil
 	Requires   []*Expr
 	Ensures    []*Expr
 	Modifies   []*Expr
@@ -66,6 +67,7 @@ type Contract struct {
 	Nullable   map[string]bool
 	AliasOK    map[string]bool
 	Fresh      []string // results declared fresh
+	Witness     map[string][]string // parameter -> candidate inputs (hex) tried by the replay when the model does not reproduce
 	ParamNames  string            // names for the parameters of a contract attached to a function type
 	FnSpecs     map[string]string // function-typed parameter -> contract key used for calls through it
 	InlineCalls map[string]bool
@@ -291,6 +293,8 @@ func (db *ContractDB) LoadContractFile(path, pkgPath string) error {
 			cur.Decreases = e
 		case "nooverflow":
 			cur.NoOverflow = true
+		case "heapnonnil":
+			cur.HeapNonNil = true
 		case "nopanic":
 			// default
 		case "maypanic":
@@ -419,6 +423,15 @@ func (db *ContractDB) LoadContractFile(path, pkgPath string) error {
 				return err
 			}
 			cur.GhostSets = append(cur.GhostSets, GhostSet{lhs[:k], oe, e})
+		case "witness":
+			w := strings.Fields(rest)
+			if len(w) < 2 {
+				return fail("witness param hex...")
+			}
+			if cur.Witness == nil {
+				cur.Witness = map[string][]string{}
+			}
+			cur.Witness[w[0]] = append(cur.Witness[w[0]], w[1:]...)
 		case "params":
 			cur.ParamNames = rest
 		case "fnspec":
